@@ -8,6 +8,7 @@
    The interpreter invariant "every stored capture word pair is in range after tidy"
    (DESIGN §4 C08 caps_in_bounds) is the lead's and appears here only as the hypothesis
    [stored_ok] of C08_groups_wf_partial. *)
+From Verif Require Proofs.SpecBoundsProofs.
 From Verif Require Import Base.Prelude Base.Utf8 Model.Offsets Proofs.Utf8Proofs Proofs.OffsetsProofs.
 
 (* decode_total: Go's range loop never faults and tiles the string: the widths (each 1..4) sum to
@@ -216,3 +217,18 @@ Proof.
   unfold stored_ok. change (Z.to_nat 2) with 2%nat. cbn [cap_pairs firstn length].
   split; [lia|]. split; [lia|]. repeat constructor; cbn [fst snd]; lia.
 Qed.
+
+(* ---- added by the lead: the interpreter-independent half of "every capture lies inside the input;
+   group 0 has exactly one capture equal to the match", proved on the reference semantics for every
+   tree (balancing groups included) in Proofs/SpecBoundsProofs.v. *)
+Theorem C08_search_captures_in_bounds :
+  ltac:(let t := type of Verif.Proofs.SpecBoundsProofs.C08_spec_captures_in_bounds in exact t).
+Proof. exact Verif.Proofs.SpecBoundsProofs.C08_spec_captures_in_bounds. Qed.
+Print Assumptions C08_search_captures_in_bounds.
+Check Verif.Proofs.SpecBoundsProofs.C08_spec_captures_in_bounds.
+
+Theorem C08_search_group0_single :
+  ltac:(let t := type of Verif.Proofs.SpecBoundsProofs.C08_spec_group0_single in exact t).
+Proof. exact Verif.Proofs.SpecBoundsProofs.C08_spec_group0_single. Qed.
+Print Assumptions C08_search_group0_single.
+Check Verif.Proofs.SpecBoundsProofs.C08_spec_group0_single.
